@@ -74,9 +74,9 @@ Qed.
 Lemma mem_rev_seq k n : mem k (rev (seq 0 n)) = Nat.ltb k n.
 Proof.
   destruct (Nat.ltb_spec k n) as [H|H].
-  - assert (In k (rev (seq 0 n))) by (apply in_rev; rewrite rev_involutive; apply in_seq; lia).
+  - assert (In k (rev (seq 0 n))) by (apply -> in_rev; apply in_seq; lia).
     destruct (mem k (rev (seq 0 n))) eqn:E; [reflexivity|]. apply mem_false_notin in E. contradiction.
-  - apply notin_mem_false. intros Hin. apply in_rev in Hin. rewrite rev_involutive in Hin.
+  - apply notin_mem_false. intros Hin. apply in_rev in Hin.
     apply in_seq in Hin. lia.
 Qed.
 
@@ -88,21 +88,21 @@ Proof.
   destruct i as [k e|tag|].
   - destruct (Nat.eqb_spec k c) as [->|Hne].
     + destruct e as [x|err|].
-      * assert (E : rstep (x_amb n) (Some c) (RState [c] [] false) now (ISrc c (Next x))
+      * assert (E : rstep (x_amb (A:=A) n) (Some c) (RState [c] [] false) now (ISrc c (Next x))
                     = (Some c, RState [c] [] false, [OEmit (Next x)])).
         { unfold rstep. cbn. rewrite !Nat.eqb_refl. cbn. reflexivity. }
         rewrite E. cbn [fst snd]. rewrite IH. reflexivity.
-      * destruct (rstep_fin (x_amb n) (Some c) (RState [c] [] false) now (ISrc c (Err err)) pos) as [E1 E2];
+      * destruct (rstep_fin (x_amb (A:=A) n) (Some c) (RState [c] [] false) now (ISrc c (Err err)) pos) as [E1 E2];
           [reflexivity|cbn; now rewrite Nat.eqb_refl|cbn; rewrite Nat.eqb_refl; discriminate|].
         rewrite E1, (run_from_stopped _ _ _ _ _ E2). cbn. rewrite Nat.eqb_refl. reflexivity.
-      * destruct (rstep_fin (x_amb n) (Some c) (RState [c] [] false) now (ISrc c Done) pos) as [E1 E2];
+      * destruct (rstep_fin (x_amb (A:=A) n) (Some c) (RState [c] [] false) now (ISrc c Done) pos) as [E1 E2];
           [reflexivity|cbn; now rewrite Nat.eqb_refl|cbn; rewrite Nat.eqb_refl; discriminate|].
         rewrite E1, (run_from_stopped _ _ _ _ _ E2). cbn. rewrite Nat.eqb_refl. reflexivity.
-    + assert (E : rstep (x_amb n) (Some c) (RState [c] [] false) now (ISrc k e)
+    + assert (E : rstep (x_amb (A:=A) n) (Some c) (RState [c] [] false) now (ISrc k e)
                   = (Some c, RState [c] [] false, [])).
       { unfold rstep. cbn. destruct (Nat.eqb_spec k c); [congruence|]. reflexivity. }
       rewrite E. cbn [fst snd]. rewrite IH. reflexivity.
-  - assert (E : rstep (x_amb n) (Some c) (RState [c] [] false) now (ITick tag)
+  - assert (E : rstep (x_amb (A:=A) n) (Some c) (RState [c] [] false) now (ITick tag)
                 = (Some c, RState [c] [] false, [])) by reflexivity.
     rewrite E. cbn [fst snd]. rewrite IH. reflexivity.
   - unfold rstep. cbn. rewrite run_from_stopped by reflexivity. reflexivity.
@@ -124,13 +124,13 @@ Proof.
                      = RState [k] [] false).
       { apply apply_unsub_others.
         - apply NoDup_rev, seq_NoDup.
-        - apply in_rev. rewrite rev_involutive. apply in_seq. lia.
+        - apply -> in_rev. apply in_seq. lia.
         - apply filter_others.
-        - intros j Hj. apply in_rev in Hj. rewrite rev_involutive in Hj.
+        - intros j Hj. apply in_rev in Hj.
           destruct (Nat.eq_dec j k) as [->|Hne]; [left; reflexivity|right].
           apply filter_In. split; [exact Hj|]. destruct (Nat.eqb_spec j k); [congruence|reflexivity]. }
       destruct e as [x|err|].
-      * assert (E : rstep (x_amb n) None (RState (rev (seq 0 n)) [] false) now (ISrc k (Next x))
+      * assert (E : rstep (x_amb (A:=A) n) None (RState (rev (seq 0 n)) [] false) now (ISrc k (Next x))
                     = (Some k, RState [k] [] false,
                        snd (apply_cmds (B:=A) (RState (rev (seq 0 n)) [] false) (map CUnsub others)) ++ [OEmit (Next x)])).
         { unfold rstep. cbn [r_stopped r_live]. rewrite Hmem.
@@ -139,25 +139,27 @@ Proof.
           rewrite !app_nil_r. reflexivity. }
         rewrite E. cbn [fst snd]. rewrite map_app, temitted_app', apply_unsub_noemit.
         rewrite amb_chosen_from. reflexivity.
-      * destruct (rstep_fin (x_amb n) None (RState (rev (seq 0 n)) [] false) now (ISrc k (Err err)) pos) as [E1 E2];
+      * destruct (rstep_fin (x_amb (A:=A) n) None (RState (rev (seq 0 n)) [] false) now (ISrc k (Err err)) pos) as [E1 E2];
           [reflexivity|exact Hmem|cbn; rewrite Nat.eqb_refl; discriminate|].
         rewrite E1, (run_from_stopped _ _ _ _ _ E2). cbn [x_amb x_step]. rewrite Nat.eqb_refl. cbn [fst snd].
         fold others. unfold cemits. rewrite flat_map_concat_map, map_map. cbn.
-        assert (Hc : concat (map (fun _ : nat => @nil A) others) = []) by (induction others; auto).
+        assert (Hc : forall l : list nat, concat (map (fun _ : nat => @nil A) l) = [])
+          by (induction l as [|? ? IHl]; [reflexivity|exact IHl]).
         rewrite Hc. reflexivity.
-      * destruct (rstep_fin (x_amb n) None (RState (rev (seq 0 n)) [] false) now (ISrc k Done) pos) as [E1 E2];
+      * destruct (rstep_fin (x_amb (A:=A) n) None (RState (rev (seq 0 n)) [] false) now (ISrc k Done) pos) as [E1 E2];
           [reflexivity|exact Hmem|cbn; rewrite Nat.eqb_refl; discriminate|].
         rewrite E1, (run_from_stopped _ _ _ _ _ E2). cbn [x_amb x_step]. rewrite Nat.eqb_refl. cbn [fst snd].
         fold others. unfold cemits. rewrite flat_map_concat_map, map_map. cbn.
-        assert (Hc : concat (map (fun _ : nat => @nil A) others) = []) by (induction others; auto).
+        assert (Hc : forall l : list nat, concat (map (fun _ : nat => @nil A) l) = [])
+          by (induction l as [|? ? IHl]; [reflexivity|exact IHl]).
         rewrite Hc. reflexivity.
     + assert (Hmem : mem k (rev (seq 0 n)) = false).
       { rewrite mem_rev_seq. destruct (Nat.ltb_spec k n); [lia|reflexivity]. }
-      assert (E : rstep (x_amb n) None (RState (rev (seq 0 n)) [] false) now (ISrc k e)
+      assert (E : rstep (x_amb (A:=A) n) None (RState (rev (seq 0 n)) [] false) now (ISrc k e)
                   = (None, RState (rev (seq 0 n)) [] false, [])).
       { unfold rstep. cbn [r_stopped r_live]. now rewrite Hmem. }
       rewrite E. cbn [fst snd]. rewrite IH. reflexivity.
-  - assert (E : rstep (x_amb n) None (RState (rev (seq 0 n)) [] false) now (ITick tag)
+  - assert (E : rstep (x_amb (A:=A) n) None (RState (rev (seq 0 n)) [] false) now (ITick tag)
                 = (None, RState (rev (seq 0 n)) [] false, [])) by reflexivity.
     rewrite E. cbn [fst snd]. rewrite IH. reflexivity.
   - unfold rstep. cbn [r_stopped x_amb x_step apply_cmds fst snd].
@@ -182,3 +184,149 @@ Proof.
   rewrite T. cbn [app]. apply amb_open_from.
 Qed.
 End Amb.
+
+(* ---- zip: the j-th tuple is made of the j-th elements -------------------- *)
+Section Zip.
+Context {A : Type}.
+
+(* drive the zip machine with elements only: (source, element) pairs *)
+Fixpoint zip_feed (n : nat) (st : x_state (x_zip (A:=A) n)) (ins : list (nat * A)) (outs : list (list A))
+  : x_state (x_zip (A:=A) n) * list (list A) :=
+  match ins with
+  | [] => (st, outs)
+  | (k, x) :: t =>
+      let '(st', cs, _) := x_step (x_zip n) st 0 (ISrc k (Next x)) in
+      zip_feed n st' t (outs ++ cemits cs)
+  end.
+
+Definition proj (k : nat) (ins : list (nat * A)) : list A :=
+  flat_map (fun p => if Nat.eqb (fst p) k then [snd p] else []) ins.
+
+Definition col (d : A) (k : nat) (outs : list (list A)) : list A := map (fun t => nth k t d) outs.
+
+Lemma nth_set_length {X} k (x : X) l : (k < length l)%nat -> length (nth_set k x l) = length l.
+Proof.
+  intros H. unfold nth_set. rewrite app_length, firstn_length_le by lia.
+  destruct (skipn k l) as [|y t] eqn:E.
+  - assert (length (skipn k l) = 0%nat) by now rewrite E. rewrite skipn_length in *. lia.
+  - cbn. assert (length (skipn k l) = S (length t)) by now rewrite E. rewrite skipn_length in *. lia.
+Qed.
+
+Lemma nth_nth_set_same {X} k (x d : X) l : (k < length l)%nat -> nth k (nth_set k x l) d = x.
+Proof.
+  intros H. unfold nth_set. rewrite app_nth2; rewrite firstn_length_le by lia; [|lia].
+  rewrite Nat.sub_diag. destruct (skipn k l) eqn:E; [|reflexivity].
+  assert (length (skipn k l) = 0%nat) by now rewrite E. rewrite skipn_length in *. lia.
+Qed.
+
+Lemma nth_nth_set_other {X} k j (x d : X) l : j <> k -> nth j (nth_set k x l) d = nth j l d.
+Proof.
+  intros Hne. unfold nth_set.
+  destruct (Nat.lt_ge_cases j k) as [Hlt|Hge].
+  - destruct (Nat.lt_ge_cases j (length l)) as [Hjl|Hjl].
+    + rewrite app_nth1 by (rewrite firstn_length; lia).
+      rewrite <- (firstn_skipn k l) at 2. rewrite app_nth1 by (rewrite firstn_length; lia). reflexivity.
+    + rewrite (nth_overflow l) by lia. apply nth_overflow.
+      rewrite app_length, firstn_length. destruct (skipn k l) eqn:E; cbn; [lia|].
+      assert (length (skipn k l) = S (length l0)) by now rewrite E. rewrite skipn_length in *. lia.
+  - destruct (Nat.lt_ge_cases k (length l)) as [Hkl|Hkl].
+    + rewrite app_nth2 by (rewrite firstn_length; lia). rewrite firstn_length_le by lia.
+      rewrite <- (firstn_skipn k l) at 2. rewrite app_nth2 by (rewrite firstn_length; lia).
+      rewrite firstn_length_le by lia.
+      destruct (skipn k l) as [|y t] eqn:E.
+      * assert (length (skipn k l) = 0%nat) by now rewrite E. rewrite skipn_length in *. lia.
+      * replace (j - k)%nat with (S (j - k - 1)) by lia. reflexivity.
+    + rewrite skipn_all2 by lia. rewrite app_nil_r, firstn_all2 by lia. reflexivity.
+Qed.
+
+(* pairing invariant: what source k delivered = the k-th column of the emitted
+   tuples followed by what is still queued for k *)
+Definition zip_inv (d : A) (n : nat) (ins : list (nat * A)) (queues : list (list A)) (outs : list (list A)) : Prop :=
+  length queues = n /\ forall k, (k < n)%nat -> proj k ins = col d k outs ++ nth k queues [].
+
+Lemma proj_app k (a b : list (nat * A)) : proj k (a ++ b) = proj k a ++ proj k b.
+Proof. unfold proj. apply flat_map_app. Qed.
+
+Lemma col_app d k (a b : list (list A)) : col d k (a ++ b) = col d k a ++ col d k b.
+Proof. unfold col. apply map_app. Qed.
+
+Lemma all_nonempty_nth (qs : list (list A)) : all_nonempty qs = true ->
+  forall k, (k < length qs)%nat -> nth k qs [] <> [].
+Proof.
+  unfold all_nonempty. intros H k Hk Hnil.
+  rewrite forallb_forall in H. specialize (H (nth k qs []) (nth_In _ _ Hk)).
+  rewrite Hnil in H. discriminate.
+Qed.
+
+Lemma zip_step_inv d n (done : list bool) (seen : list (nat * A)) queues outs k x :
+  (k < n)%nat -> zip_inv d n seen queues outs ->
+  let '(st', cs, _) := x_step (x_zip n) (queues, done) 0 (ISrc k (Next x)) in
+  zip_inv d n (seen ++ [(k, x)]) (fst st') (outs ++ cemits cs) /\ snd st' = done.
+Proof.
+  intros Hk [Hlen Hinv]. cbn [x_zip x_step].
+  set (queues1 := nth_set k (nth k queues [] ++ [x]) queues).
+  assert (Hlen1 : length queues1 = n) by (subst queues1; rewrite nth_set_length; lia).
+  assert (H1 : forall j, (j < n)%nat -> proj j (seen ++ [(k, x)]) = col d j outs ++ nth j queues1 []).
+  { intros j Hj. rewrite proj_app, (Hinv j Hj). unfold proj at 1. cbn [flat_map fst snd app].
+    subst queues1. destruct (Nat.eqb_spec k j) as [->|Hne].
+    - rewrite nth_nth_set_same by lia. now rewrite app_nil_r, app_assoc.
+    - rewrite nth_nth_set_other by congruence. now rewrite !app_nil_r. }
+  destruct (all_nonempty queues1) eqn:Hall; cbn [fst snd cemits flat_map app].
+  - split; [|reflexivity]. split; [now rewrite map_length|].
+    intros j Hj. rewrite (H1 j Hj), col_app. unfold col at 2. cbn [map].
+    pose proof (all_nonempty_nth queues1 Hall j ltac:(lia)) as Hne.
+    rewrite <- app_assoc. f_equal.
+    (* the j-th queue = its head :: its tail *)
+    assert (Hj1 : (j < length queues1)%nat) by lia.
+    rewrite (nth_indep _ d x) by (rewrite map_length; lia).
+    rewrite (map_nth (fun q => match q with [] => x | v :: _ => v end) queues1 [] j).
+    change (@nil A) with (@tl A []) at 2. rewrite (map_nth (@tl A) queues1 [] j).
+    destruct (nth j queues1 []) as [|v t]; [congruence|reflexivity].
+  - split; [|reflexivity]. split; [exact Hlen1|].
+    intros j Hj. rewrite app_nil_r. apply H1. exact Hj.
+Qed.
+
+(* for ANY sequence of deliveries (source, element) to an n-ary zip: column k of
+   the emitted tuples, followed by what is still buffered for source k, is
+   exactly what source k delivered -- so the j-th tuple consists of the j-th
+   elements of the sources *)
+Theorem zip_pairing d n (ins : list (nat * A)) :
+  Forall (fun p => (fst p < n)%nat) ins ->
+  let '(st, outs) := zip_feed n (repeat [] n, repeat false n) ins [] in
+  forall k, (k < n)%nat -> proj k ins = col d k outs ++ nth k (fst st) [].
+Proof.
+  intros Hall.
+  assert (G : forall ins seen queues done outs,
+    Forall (fun p => (fst p < n)%nat) ins -> zip_inv d n seen queues outs ->
+    let '(st, outs') := zip_feed n (queues, done) ins outs in
+    zip_inv d n (seen ++ ins) (fst st) outs').
+  { clear. induction ins as [|[k x] rest IH]; intros seen queues done outs Hf Hinv.
+    - cbn. now rewrite app_nil_r.
+    - inversion Hf as [|? ? Hk Hrest]; subst. cbn [fst] in Hk. cbn [zip_feed].
+      pose proof (zip_step_inv d n done seen queues outs k x Hk Hinv) as Hs.
+      destruct (x_step (x_zip n) (queues, done) 0 (ISrc k (Next x))) as [[st' cs] f].
+      destruct Hs as [Hs1 Hs2]. destruct st' as [q' d']. cbn [fst snd] in *. subst d'.
+      specialize (IH (seen ++ [(k, x)]) q' done (outs ++ cemits cs) Hrest Hs1).
+      rewrite <- app_assoc in IH. exact IH. }
+  specialize (G ins [] (repeat [] n) (repeat false n) [] Hall).
+  assert (H0 : zip_inv d n [] (repeat [] n) []).
+  { split; [apply repeat_length|]. intros k Hk. cbn.
+    clear - Hk. revert k Hk. induction n as [|m IHm]; intros k Hk; [lia|].
+    destruct k; cbn; [reflexivity|apply IHm; lia]. }
+  specialize (G H0). destruct (zip_feed n (repeat [] n, repeat false n) ins []) as [st outs].
+  cbn [app] in G. destruct G as [_ G]. exact G.
+Qed.
+
+(* when zip emits and when it completes *)
+Lemma zip_emits_iff_all_have n queues done now k (x : A) :
+  cemits (snd (fst (x_step (x_zip n) (queues, done) now (ISrc k (Next x))))) <> [] <->
+  all_nonempty (nth_set k (nth k queues [] ++ [x]) queues) = true.
+Proof.
+  cbn [x_zip x_step]. destruct (all_nonempty _); cbn; split; intros H; try congruence; discriminate.
+Qed.
+
+Lemma zip_completion_rule n queues done now k :
+  snd (x_step (x_zip (A:=A) n) (queues, done) now (ISrc k Done))
+  = if Nat.eqb (length (nth k queues [])) 0 then Complete else Cont.
+Proof. reflexivity. Qed.
+End Zip.
